@@ -432,9 +432,12 @@ Definition model_lookup (nt : net) (m : imap) (tolpos : bool) (tag : N) (ex wi :
   | 12 => fp (nominal_dir_elems nt) | 13 => inner groups
   | _ => None
   end%N.
-Definition pt_case := (N * list positive * list positive * option positive * option positive)%type.
+(* one sampled point: the exact / within answer sets, then the lookups made at it (tag, argument, result) *)
+Definition pt_case := (list positive * list positive * list (N * option positive * option positive))%type.
 Definition pt_ok (nt : net) (m : imap) (tolpos : bool) (c : pt_case) : bool :=
-  match c with (tag, ex, wi, arg, expected) => opos_eqb (model_lookup nt m tolpos tag ex wi arg) expected end.
+  match c with (ex, wi, looks) =>
+    forallb (fun l => match l with (tag, arg, expected) =>
+               opos_eqb (model_lookup nt m tolpos tag ex wi arg) expected end) looks end.
 Fixpoint failing_idx {A} (ok : A -> bool) (l : list A) (i : N) : list N :=
   match l with [] => [] | x :: t => (if ok x then [] else [i]) ++ failing_idx ok t (N.succ i) end.
 Definition pts_bad (nt : net) (tolpos : bool) (cs : list pt_case) : list N :=
